@@ -1061,6 +1061,7 @@ func panicSafety(env *vh.Env, rep *vh.Report) {
 				if !ok {
 					continue
 				}
+				at("panic-safety: %s with three entries (uncomparable values / panicking user keys, comparators, callbacks), then %s(seed %d)", c.name, m, seed)
 				atomic.StoreInt32(&poisonArmed, 1)
 				out := vh.GuardTimeout(2*time.Second, func() { meth.Call(args) })
 				atomic.StoreInt32(&poisonArmed, 0)
